@@ -35,6 +35,17 @@ const NUMS: &[(&str, &str)] = &[
     ("2147483648", "huge"),
     ("-7", "plain"),
     ("12345.678", "fraction"),
+    // decimal fractions whose sums and products miss the decimal result by one unit in the last place
+    ("0.1", "decimal"),
+    ("0.2", "decimal"),
+    ("0.3", "decimal"),
+    ("0.30000000000000004", "decimal"),
+    ("1.1", "decimal"),
+    ("1.21", "decimal"),
+    ("4.35", "decimal"),
+    ("100", "plain"),
+    ("435", "plain"),
+    ("9007199254740992", "huge"),
 ];
 
 const STRS: &[(&str, &str)] = &[
